@@ -68,6 +68,22 @@ M('c14-sync-empty-delimiter-allowed', 'C14', 'R3', S,
   "if not 0 <= delimiter_len_1 < self._chunk_size:", "if not -1 <= delimiter_len_1 < self._chunk_size:")
 M('c14-async-overlong-delimiter-allowed', 'C14', 'R3', A,
   "if not 0 <= delimiter_len_1 < self._chunk_size:", "if not 0 <= delimiter_len_1 <= self._chunk_size:")
+# wave 10 (s10-c14-2): a failed delimiter check consumes nothing -- the compared bytes are looked at (peek), not taken
+_PIPE_TAIL = ("            delimiter_len = len(delimiter)\n            if self.peek(delimiter_len) != delimiter:\n"
+              "                raise DelimiterError('expected delimiter missing')\n            self._buffer_pos += delimiter_len\n")
+M('c14-sync-pipe-until-consume-by-read', 'C14', 'R3', S, _PIPE_TAIL,
+  "            if self.read(len(delimiter)) != delimiter:\n                raise DelimiterError('expected delimiter missing')\n")
+M('c14-sync-pipe-until-consume-by-private-read-through-temporary', 'C14', 'R3', S, _PIPE_TAIL,
+  "            got = self._read(len(delimiter))\n            if not got == delimiter:\n                raise DelimiterError('expected delimiter missing')\n")
+M('c14-async-consume-delimiter-by-read', 'C14', 'R3', A,
+  "        if await self.peek(delimiter_len) != delimiter:\n            raise DelimiterError('expected delimiter missing')\n        self._buffer_pos += delimiter_len\n",
+  "        if await self.read(delimiter_len) != delimiter:\n            raise DelimiterError('expected delimiter missing')\n")
+M('c14-sync-finalize-compare-consumed-bytes', 'C14', 'R3', S,
+  "                if self.peek(consume_bytes) != delimiter:\n                    raise DelimiterError('expected delimiter missing')\n            elif",
+  "                if self._read(consume_bytes) != delimiter:\n                    raise DelimiterError('expected delimiter missing')\n                return ret_value\n            elif")
+M('c14-sync-pipe-until-delimiter-check-inverted', 'C14', 'R3', S,
+  "            if self.peek(delimiter_len) != delimiter:\n                raise DelimiterError('expected delimiter missing')\n            self._buffer_pos += delimiter_len\n",
+  "            if self.peek(delimiter_len) == delimiter:\n                raise DelimiterError('expected delimiter missing')\n            self._buffer_pos += delimiter_len\n")
 
 # ------------------------------------------------------------------ R4 tell / eof / consumed (async)
 M('c14-async-consumed-misses-tail-chunk', 'C14', 'R4', A,
